@@ -30,6 +30,15 @@
 #ifndef CL_MODE
 #define CL_MODE 1
 #endif
+/* PROG 2: the optional calls are fixed per harness instance through the bit mask P2MASK (bit i =
+ * i-th optional call executes); without P2MASK they are symbolic */
+#ifdef P2MASK
+#define P2B(i) ((P2MASK >> (i)) & 1)
+#define P2N 1
+#else
+#define P2B(i) ND(bool_t)
+#define P2N (ND(uint8_t) & 1)
+#endif
 #define RING_BYTES (RING_FRAMES * FRAME_BYTES + 8)
 
 static enum DeviceStatusCode
@@ -81,6 +90,23 @@ int verif_thread_pending(const struct thread* self);
 extern int verif_join_log[16], verif_join_n, verif_create_log[16], verif_create_n;
 
 static void reporter(int e, const char* f, int l, const char* fn, const char* m) {}
+
+/* G-API (C07d): a software trigger releases at most ONE blocked frame call, so the trigger that
+ * acquire_abort fires to unblock the camera must come AFTER the stop request is visible to the
+ * source thread and after writes are refused; otherwise the source can deliver that frame, loop,
+ * and block again on a trigger that never comes (source unit + C18 give: stop flag set and then
+ * a trigger => the source thread exits). */
+static int in_abort;
+static void
+on_trigger(int cam)
+{
+    if (!in_abort) return;
+    for (int i = 0; i < 2; ++i)
+        if (((RT->valid_video_streams >> i) & 1) && RT->video[i].source.camera && ((struct mock_cam*)RT->video[i].source.camera)->id == cam) {
+            VASSERT(RT->video[i].source.is_stopping == 1, "C07: acquire_abort fired the unblocking trigger before the source's stop request was set");
+            VASSERT(RT->video[i].sink.in.is_accepting_writes == 0, "C07: acquire_abort fired the unblocking trigger before writes were refused");
+        }
+}
 
 static struct AcquireProperties props;
 static void
@@ -157,16 +183,25 @@ main(void)
 #if PROG == 3
         int fault_kind = 0;
         if (a == 0) {
+#ifdef FAULT_KIND
+            fault_kind = FAULT_KIND; /* 1 camera, 2 storage: fixed per harness instance */
+#else
             fault_kind = ND(uint8_t);
             VASSUME(fault_kind >= 1 && fault_kind <= 2);
+#endif
         }
 #endif
         VASSERT(acquire_configure(rt, &props) == AcquireStatus_Ok, "configure failed");
 #if PROG == 3
+#ifdef FAULT_AT
+        if (fault_kind == 1) CAM[0].fail_frame_at = FAULT_AT; else CAM[0].fail_frame_at = -1;
+        if (fault_kind == 2) STO[0].fail_append_at = FAULT_AT; else STO[0].fail_append_at = -1;
+#else
         if (fault_kind == 1) { CAM[0].fail_frame_at = ND(uint8_t); VASSUME(CAM[0].fail_frame_at < (int)N); }
         else CAM[0].fail_frame_at = -1;
         if (fault_kind == 2) { STO[0].fail_append_at = ND(uint8_t); VASSUME(STO[0].fail_append_at < (int)N); }
         else STO[0].fail_append_at = -1;
+#endif
 #endif
         VASSERT(acquire_start(rt) == AcquireStatus_Ok, "start failed");
         cur_acq = CAM[0].acq;
@@ -209,7 +244,10 @@ main(void)
 #else
         bool_t use_abort = ND(bool_t);
 #endif
+        mock_trigger_hook = on_trigger;
+        in_abort = use_abort;
         enum AcquireStatusCode rc = use_abort ? acquire_abort(rt) : acquire_stop(rt);
+        in_abort = 0;
         VASSERT(rc == AcquireStatus_Ok, "stop/abort failed");
         VASSERT(!verif_thread_pending(&RT->video[0].source.thread) && !verif_thread_pending(&RT->video[0].filter.thread) &&
                   !verif_thread_pending(&RT->video[0].sink.thread), "C07: a worker thread is still alive after stop/abort returned");
@@ -249,11 +287,16 @@ main(void)
         VASSERT(cl_stale == 0, "C06: client saw a frame of an earlier acquisition");
         VASSERT(cl_bad == 0, "C06/C05: client saw a malformed frame");
         VASSERT(cl_fail == 0, "C06: acquire_map_read/unmap_read failed");
+#if CL_MODE >= 1 && defined(FIX_EARLY) && FIX_EARLY == 1
         COVER(a == 1 && cl_seen_total > 0);
+#endif
+#if CL_MODE == 2
         COVER(holding_across_stop);
 #endif
-        COVER(a == ACQS - 1 && !use_abort && src_early);
-        COVER(use_abort && STO[0].frames_this_run > 0);
+#endif
+#if !defined(FIX_ABORT) || FIX_ABORT == 0
+        COVER(a == ACQS - 1 && STO[0].frames_this_run > 0);
+#endif
     }
     acquire_shutdown(rt);
     VASSERT(CAM[0].opens == CAM[0].closes && STO[0].opens == STO[0].closes, "C08: device not closed exactly once by shutdown");
@@ -262,56 +305,61 @@ main(void)
 #elif PROG == 2
     /* two streams; optional calls in a fixed order; other devices on re-configure */
     int started = 0;
-    bool_t two = ND(bool_t);
+    bool_t two = P2B(0);
     memset(&props, 0, sizeof props);
-    fill_props(0, 0, 0, 1 + (ND(uint8_t) & 1), 0);
-    if (two) fill_props(1, 1, 1, 1 + (ND(uint8_t) & 1), 0);
+    fill_props(0, 0, 0, 1 + P2N, 0);
+    if (two) fill_props(1, 1, 1, 1 + P2N, 0);
     VASSERT(acquire_configure(rt, &props) == AcquireStatus_Ok, "configure failed");
     STO[0].expect_cam = 0; STO[1].expect_cam = 1;
-    if (ND(bool_t)) {
+    if (P2B(1)) {
         VASSERT(acquire_start(rt) == AcquireStatus_Ok, "start failed");
         started = 1;
         STO[0].expect_acq = CAM[0].acq; STO[1].expect_acq = CAM[1].acq;
         VASSERT(acquire_get_state(rt) == DeviceState_Running, "C08: not Running after start");
-        if (ND(bool_t)) acquire_execute_trigger(rt, 0);
-        if (ND(bool_t)) { /* start while running: must fail cleanly */
+        if (P2B(2)) acquire_execute_trigger(rt, 0);
+        if (P2B(3)) { /* start while running: must fail cleanly */
             enum AcquireStatusCode rc2 = acquire_start(rt);
             VASSERT(rc2 != AcquireStatus_Ok, "C08: start while running reported success");
         }
-        if (ND(bool_t)) VASSERT(acquire_stop(rt) == AcquireStatus_Ok, "stop failed");
-        else VASSERT(acquire_abort(rt) == AcquireStatus_Ok, "abort failed");
+        if (P2B(4)) VASSERT(acquire_stop(rt) == AcquireStatus_Ok, "stop failed");
+        else { mock_trigger_hook = on_trigger; in_abort = 1; VASSERT(acquire_abort(rt) == AcquireStatus_Ok, "abort failed"); in_abort = 0; }
         VASSERT(acquire_get_state(rt) == DeviceState_Armed || acquire_get_state(rt) == DeviceState_AwaitingConfiguration, "C08: state after stop/abort");
         VASSERT(CAM[0].started == 0 && STO[0].started == 0 && CAM[1].started == 0 && STO[1].started == 0, "C08: a device is still started after stop/abort");
     }
     VASSERT(mock_protocol_ok(), "C08: device protocol violated");
-    if (ND(bool_t)) {
+    if (P2B(5)) {
         /* re-configure with the other devices (swap), then a full acquisition */
         memset(&props, 0, sizeof props);
-        fill_props(0, 1, 1, 1, 0);
-        if (two && ND(bool_t)) fill_props(1, 0, 0, 1, 0);
+        /* stream 0 moves to the third camera/storage; optionally stream 1 takes over the devices
+         * stream 0 has just released (configure handles the streams in order) */
+        fill_props(0, 2, 2, 1, 0);
+        if (two && P2B(6)) fill_props(1, 0, 0, 1, 0);
+        else if (two) fill_props(1, 1, 1, 1, 0);
         VASSERT(acquire_configure(rt, &props) == AcquireStatus_Ok, "re-configure failed");
-        STO[1].expect_cam = 1; STO[0].expect_cam = 0;
+        STO[2].expect_cam = 2; STO[0].expect_cam = 0; STO[1].expect_cam = 1;
         VASSERT(mock_protocol_ok(), "C08: device protocol violated by re-configure");
-        if (ND(bool_t)) {
+        if (P2B(7)) {
             VASSERT(acquire_start(rt) == AcquireStatus_Ok, "second start failed");
-            STO[0].expect_acq = CAM[0].acq; STO[1].expect_acq = CAM[1].acq;
+            STO[0].expect_acq = CAM[0].acq; STO[1].expect_acq = CAM[1].acq; STO[2].expect_acq = CAM[2].acq;
             VASSERT(acquire_stop(rt) == AcquireStatus_Ok, "second stop failed");
-            VASSERT(STO[1].frames_this_run == 1, "C04: second acquisition incomplete");
+            VASSERT(STO[2].frames_this_run == 1, "C04: second acquisition incomplete");
             VASSERT(acquire_get_state(rt) == DeviceState_Armed, "C08: not Armed after stop");
         }
     }
-    VASSERT(STO[0].tag_errors == 0 && STO[1].tag_errors == 0, "C04: streams mixed (storage got another camera's frames)");
-    VASSERT(STO[0].order_errors == 0 && STO[1].order_errors == 0 && STO[0].bad_packet == 0 && STO[1].bad_packet == 0, "C04/C05: packets");
+    VASSERT(STO[0].tag_errors == 0 && STO[1].tag_errors == 0 && STO[2].tag_errors == 0, "C04: streams mixed (storage got another camera's frames)");
+    VASSERT(STO[0].order_errors == 0 && STO[1].order_errors == 0 && STO[2].order_errors == 0 && STO[0].bad_packet == 0 && STO[1].bad_packet == 0 && STO[2].bad_packet == 0, "C04/C05: packets");
     acquire_shutdown(rt);
-    for (int i = 0; i < 2; ++i) {
+    for (int i = 0; i < NCAM; ++i) {
         VASSERT(CAM[i].opens == CAM[i].closes && !CAM[i].open, "C08: camera not closed exactly once by shutdown at the latest");
         VASSERT(STO[i].opens == STO[i].closes && !STO[i].open, "C08: storage not closed exactly once by shutdown at the latest");
         VASSERT(CAM[i].starts == CAM[i].stops, "C08: camera not stopped exactly once per start");
         VASSERT(STO[i].starts == STO[i].stops, "C08: storage not stopped exactly once per start");
     }
     VASSERT(mock_protocol_ok(), "C08: device protocol violated at shutdown");
+#ifndef P2MASK
     COVER(started && two);
     COVER(CAM[1].opens >= 1 && STO[1].starts >= 1);
+#endif
     WITNESS_END();
 #endif
     return 0;
